@@ -1148,15 +1148,14 @@ package saml
 //@ contract (*Endpoint).UnmarshalXML
 //@ requires[cfg] d: d != nil
 //@ -- each location is checked, and replaced, by its own filtered value (C15: parsing preserves http(s) endpoints)
-//@ assert@call[C14,C15] checkEndpointLocation #1 (binding string, location string) checks_location: binding == m.Binding && location == m.Location
-//@ assert@call[C14,C15] checkEndpointLocation #2 (binding string, location string) checks_response_location: binding == m.Binding && location == m.ResponseLocation
+//@ assert@call[C14,C15] checkEndpointLocation #each (binding string, location string) checks_own_locations:
+//@    binding == m.Binding && (location == m.Location || location == m.ResponseLocation)
 //@ ensures[C14] location: err == nil ==> locationOK(m.Binding, m.Location)
 //@ ensures[C14] response_location: err == nil && m.ResponseLocation != "" ==> locationOK(m.Binding, m.ResponseLocation)
 //@ contract (*IndexedEndpoint).UnmarshalXML
 //@ requires[cfg] d: d != nil
-//@ assert@call[C14,C15] checkEndpointLocation #1 (binding string, location string) checks_location: binding == m.Binding && location == m.Location
-//@ assert@call[C14,C15] checkEndpointLocation #2 (binding string, location string) checks_response_location:
-//@    binding == m.Binding && m.ResponseLocation != nil && location == *m.ResponseLocation
+//@ assert@call[C14,C15] checkEndpointLocation #each (binding string, location string) checks_own_locations:
+//@    binding == m.Binding && (location == m.Location || (m.ResponseLocation != nil && location == *m.ResponseLocation))
 //@ ensures[C14] location: err == nil ==> locationOK(m.Binding, m.Location)
 //@ ensures[C14] response_location: err == nil && m.ResponseLocation != nil ==> locationOK(m.Binding, *m.ResponseLocation) && *m.ResponseLocation != ""
 
@@ -1178,16 +1177,19 @@ package saml
 //@ contract (Duration).MarshalText
 //@ arith wrap64
 //@ -- what is printed are the components of an exact decomposition of |d| (64-bit arithmetic: fails at MinInt64)
-//@ assert@call[C15] Sprintf #1 (format string, a []interface{}) uses abs=d Duration, h time.Duration, m time.Duration, s time.Duration, ns time.Duration hours:
-//@    format == "%dH" && firstArgIs(a, h) && durationParts(abs, h, m, s, ns)
-//@ assert@call[C15] Sprintf #2 (format string, a []interface{}) uses abs=d Duration, h time.Duration, m time.Duration, s time.Duration, ns time.Duration minutes:
-//@    format == "%dM" && firstArgIs(a, m) && durationParts(abs, h, m, s, ns)
-//@ assert@call[C15] Sprintf #3 (format string, a []interface{}) uses abs=d Duration, h time.Duration, m time.Duration, s time.Duration, ns time.Duration seconds:
-//@    format == "%d" && firstArgIs(a, s) && durationParts(abs, h, m, s, ns)
-//@ assert@call[C15] Sprintf #4 (format string, a []interface{}) uses abs=d Duration, h time.Duration, m time.Duration, s time.Duration, ns time.Duration nanos:
-//@    format == ".%09d" && firstArgIs(a, ns) && durationParts(abs, h, m, s, ns)
-//@ assert@return[C15] #2 uses abs=d Duration, h time.Duration, m time.Duration, s time.Duration, ns time.Duration exact_decomposition:
-//@    durationParts(abs, h, m, s, ns) && (abs == d || -abs == d)
+//@ -- (each component is recognised by the format it is printed with, not by the how-manyeth Sprintf it is)
+//@ assert@call[C15] Sprintf #each (format string, a []interface{}) uses abs=d Duration, h time.Duration, m time.Duration, s time.Duration, ns time.Duration hours:
+//@    format == "%dH" ==> firstArgIs(a, h) && durationParts(abs, h, m, s, ns)
+//@ assert@call[C15] Sprintf #each (format string, a []interface{}) uses abs=d Duration, h time.Duration, m time.Duration, s time.Duration, ns time.Duration minutes:
+//@    format == "%dM" ==> firstArgIs(a, m) && durationParts(abs, h, m, s, ns)
+//@ assert@call[C15] Sprintf #each (format string, a []interface{}) uses abs=d Duration, h time.Duration, m time.Duration, s time.Duration, ns time.Duration seconds:
+//@    format == "%d" ==> firstArgIs(a, s) && durationParts(abs, h, m, s, ns)
+//@ assert@call[C15] Sprintf #each (format string, a []interface{}) uses abs=d Duration, h time.Duration, m time.Duration, s time.Duration, ns time.Duration nanos:
+//@    format == ".%09d" ==> firstArgIs(a, ns) && durationParts(abs, h, m, s, ns)
+//@ assert@call[C15] Sprintf #each (format string, a []interface{}) known_formats:
+//@    format == "%dH" || format == "%dM" || format == "%d" || format == ".%09d"
+//@ assert@return[C15] #each uses abs=d Duration, hSeen=reached:h bool, h=h? time.Duration, m=m? time.Duration, s=s? time.Duration, ns=ns? time.Duration exact_decomposition:
+//@    hSeen ==> durationParts(abs, h, m, s, ns) && (abs == d || -abs == d)
 //@ ensures[C15] zero_is_empty: d == 0 ==> result == nil && err == nil
 //@ ensures[C15] no_error: err == nil
 
@@ -1208,9 +1210,9 @@ package saml
 //@ ensures[C15,C02,C05,C18] value: err == nil && len(text) > 0 ==> time.Time(*m) == parsedInstant(string(text)).Round(time.Millisecond)
 //@ -- every accepted layout is read by time.Parse, i.e. a text without zone designator is taken as UTC, never as the host's
 //@ -- local zone (freshness of responses, assertions and logout responses is decided on these instants: C02, C18)
-//@ assert@call[C15,C02,C05,C18] Parse #1 (layout string, value string) first_layout: layout == time.RFC3339 && value == string(text)
-//@ assert@call[C15,C02,C05,C18] Parse #2 (layout string, value string) second_layout: layout == time.RFC3339Nano && value == string(text)
-//@ assert@call[C15,C02,C05,C18] Parse #3 (layout string, value string) third_layout: layout == "2006-01-02T15:04:05.999999999" && value == string(text)
+//@ -- (which layout is tried when is pinned by `value` above; here: every try reads the given text with one of the three)
+//@ assert@call[C15,C02,C05,C18] Parse #each (layout string, value string) reads_the_text_with_a_known_layout:
+//@    value == string(text) && (layout == time.RFC3339 || layout == time.RFC3339Nano || layout == "2006-01-02T15:04:05.999999999")
 //@ assert@call[C15,C02,C05,C18] Round #0 (t time.Time, d time.Duration) millisecond: d == time.Millisecond
 
 //@ -- the value of an accepted duration text, in terms of the (assumed deterministic) lexical functions: the exact sum
